@@ -73,6 +73,9 @@ def make_case(r):
     elif kind == "posix":
         ind = netgen.posix_path(r)
         exp_types, value = ["path"], ind
+        # a POSIX path consists of base64 alphabet characters: a line break next to it lets the documented bare-base64
+        # rule (which allows line breaks inside the encoded text) join it with the neighbouring word
+        dl, dr = r.choice([(b" ", b" "), (b'"', b'"'), (b"<", b">"), (b"\x00", b"\x00"), (b"\t", b" ")])
     elif kind == "windows":
         ind, t = netgen.windows_path(r)
         exp_types, value = [t], ntpath.normpath(ind)
@@ -161,6 +164,10 @@ def judge(c, pre, post, pre2, post2, ctx, case, trig=False):
         ctx.count("trigger_after_indicator")
     node, why = find_expected(root, c["types"], c["value"], off, off + len(c["ind"]))
     desc = f"{c['kind']} {c['ind'][:80]!r} at offset {off} between {pre[-12:]!r} and {post[:12]!r}"
+    if node is None and mon_layers.swallowed_by(root, off, off + len(c["ind"])) is not None:
+        # indicator + neighbouring text form another documented decoding (e.g. bare base64 across a line break)
+        ctx.count("discarded:indicator-plus-neighbour-text-is-another-decoding")
+        return
     if node is None:
         where = "offset0" if off == 0 else "offset>0"
         kind = "span" if "denotes" in why else ("value" if "has value" in why else "missing")
@@ -175,7 +182,9 @@ def judge(c, pre, post, pre2, post2, ctx, case, trig=False):
         return
     ctx.count("metamorphic_pairs")
     node2, why2 = find_expected(root2, c["types"], c["value"], len(pre2), len(pre2) + len(c["ind"]))
-    if node2 is None:
+    if node2 is None and mon_layers.swallowed_by(root2, len(pre2), len(pre2) + len(c["ind"])) is not None:
+        ctx.count("discarded:indicator-plus-neighbour-text-is-another-decoding")
+    elif node2 is None:
         ctx.violation(f"ioc:{c['kind']}:position-dependent", f"{desc}: found here but not at offset {len(pre2)} between {pre2[-12:]!r} and "
                                                               f"{post2[:12]!r} ({why2})", case)
     elif tree.canon_children(node) != tree.canon_children(node2):
